@@ -514,8 +514,14 @@ func (cc *c11Cluster) isolate(n *vfNode, hot []c11Key, rng *kit.RNG) {
 	}
 	old := cc.opTimeout
 	cc.opTimeout = 1200 * time.Millisecond
-	for i := 0; i < rng.Range(0, 2); i++ {
-		cc.doSet(n, 0, hot[rng.Intn(len(hot))], "isolated")
+	for i, m := 0, rng.Range(1, 2); i < m; i++ {
+		k := hot[rng.Intn(len(hot))]
+		cc.doSet(n, 0, k, "isolated")
+		// Still the leader every server names: it must answer with what is
+		// stored, not with the value of the set that just failed.
+		if f := cc.doFetch(n, 0, k, "isolated"); f.OK {
+			cc.judgeNow(f, false)
+		}
 	}
 	cc.opTimeout = old
 }
